@@ -23,6 +23,8 @@ REPO = os.environ.get("VERIF_REPO", "/repo")
 BUILD = os.environ.get("VERIF_BUILD", os.path.join(VERIF, "build"))
 GO = os.environ.get("VERIF_GO", "go1.26.8")
 MODPATH = "github.com/pion/turn/v5"
+EVID = os.environ.get("VERIF_EVIDENCE_DIR", os.path.join(VERIF, "evidence"))
+FOUND = os.environ.get("VERIF_FOUND_DIR", os.path.join(VERIF, "replays", "found"))
 NCPU = os.cpu_count() or 4
 
 sys.path.insert(0, os.path.join(VERIF, "bin"))
@@ -136,7 +138,7 @@ def run_shards(binary, cfg, pid, tier, seed, workdir, replay=None):
             VERIF_OUT=sdir,
             VERIF_ROOT=VERIF,
             VERIF_REGRESS=os.path.join(VERIF, "replays", "regress", pid),
-            VERIF_FOUND=os.path.join(VERIF, "replays", "found", pid),
+            VERIF_FOUND=os.path.join(FOUND, pid),
             VERIF_KNOWN=os.path.join(VERIF, "known_findings.json"),
             VERIF_CHECKS=str(t.get("checks", 1000)),
             VERIF_SIZE=str(t.get("size", 0)),
@@ -367,12 +369,12 @@ def main():
         "violations": len(violations),
     }
     if not replay:
-        os.makedirs(os.path.join(VERIF, "evidence"), exist_ok=True)
-        tmp = os.path.join(VERIF, "evidence", pid + ".json.tmp")
+        os.makedirs(EVID, exist_ok=True)
+        tmp = os.path.join(EVID, pid + ".json.tmp")
         with open(tmp, "w") as f:
             json.dump(evidence, f, indent=1, sort_keys=False)
             f.write("\n")
-        os.replace(tmp, os.path.join(VERIF, "evidence", pid + ".json"))
+        os.replace(tmp, os.path.join(EVID, pid + ".json"))
 
     seen = set()
     for (rp, msg) in violations:
@@ -396,7 +398,7 @@ def main():
 
 
 def save_text(pid, kind, text):
-    d = os.path.join(VERIF, "replays", "found", pid)
+    d = os.path.join(FOUND, pid)
     os.makedirs(d, exist_ok=True)
     h = hashlib.sha1(text.encode(errors="replace")).hexdigest()[:12]
     p = os.path.join(d, "%s-%s.txt" % (kind, h))
@@ -416,7 +418,7 @@ def extract_journal(path, pid):
             return ""
         body = data[8:8 + n]
         json.loads(body)
-        d = os.path.join(VERIF, "replays", "found", pid)
+        d = os.path.join(FOUND, pid)
         os.makedirs(d, exist_ok=True)
         h = hashlib.sha1(body).hexdigest()[:12]
         p = os.path.join(d, "journal-%s.json" % h)
